@@ -6,6 +6,10 @@
 // after Schema.AddExtensions and executed (also repeatedly, with other variable values) through ExecutePlan;
 // documents with variable-driven @skip/@include on fields, inline fragments and fragment spreads; and request
 // contexts that are cancelled or past their deadline before the call, while a resolver runs, or in a finish hook.
+// Meta fields (__typename, __schema, __type and the introspection fields selected below them) are executed fields like
+// any other: the harness wraps the resolve functions of the library's exported definitions so that they log the
+// "resolver" pseudo event too (instrumentMeta), and -- independently of model and resolver log -- compares the resolve
+// notifications of every extension with the field positions of the response data (treeOracle).
 // No defect class is recorded for C17 (D-17a..d are repaired in /repo): every disagreement, every failing
 // predicate and every panic escaping graphql.Do is a violation.
 package main
@@ -74,7 +78,9 @@ type reqT struct {
 	Vars   map[string]interface{} `json:"vars,omitempty"`
 	Shape  string                 `json:"shape"`
 	// Table: response key -> [index in Fields, outcome] for the fields that run under Vars; nil = the keys are "k<i>"
+	// (since the __typename round: path or response key -> [index, outcome, runtime type, list length, meta], see tabEntry)
 	Table map[string][]int `json:"table,omitempty"`
+	Feat  []string         `json:"feat,omitempty"` // features of the document (histogram only)
 }
 
 // entry points: "" / "do" graphql.Do on a schema built with its extensions; "do-addext" graphql.Do on a schema
@@ -95,6 +101,7 @@ type caseT struct {
 type evT struct {
 	idx                         int // registration index (canonicalisation only)
 	name, hook, fld, out, fault int
+	path                        string // resolve hooks: the response path of the field (response-tree oracle only)
 }
 
 func (e evT) wire() []int { return []int{e.name, e.hook, e.fld, e.out, e.fault} }
@@ -161,7 +168,9 @@ type tExt struct{ idx int }
 func (e *tExt) cfg() extCfg { return curExts[e.idx] }
 
 // call logs the hook call and then shows the configured behaviour
-func (e *tExt) call(hook, fld, out int) {
+func (e *tExt) call(hook, fld, out int) { e.callP(hook, fld, out, "") }
+
+func (e *tExt) callP(hook, fld, out int, path string) {
 	if hook == hResStart {
 		gateFirst()
 	}
@@ -170,7 +179,7 @@ func (e *tExt) call(hook, fld, out int) {
 	}
 	c := e.cfg()
 	f := c.Beh[hook]
-	logEv(evT{idx: e.idx, name: c.Name, hook: hook, fld: fld, out: out, fault: f})
+	logEv(evT{idx: e.idx, name: c.Name, hook: hook, fld: fld, out: out, fault: f, path: path})
 	switch f {
 	case 1:
 		panic(errors.New("E"))
@@ -218,13 +227,14 @@ func (e *tExt) ExecutionDidStart(ctx context.Context) (context.Context, graphql.
 }
 func (e *tExt) ResolveFieldDidStart(ctx context.Context, i *graphql.ResolveInfo) (context.Context, graphql.ResolveFieldFinishFunc) {
 	fld := keyIndex(i.Path)
-	e.call(hResStart, fld, outNone)
+	ps := pathStr(i.Path)
+	e.callP(hResStart, fld, outNone, ps)
 	return ctx, func(v interface{}, err error) {
 		o := outOk
 		if err != nil {
 			o = outErr
 		}
-		e.call(hResEnd, fld, o)
+		e.callP(hResEnd, fld, o, ps)
 	}
 }
 func (e *tExt) HasResult() bool {
@@ -236,27 +246,57 @@ func (e *tExt) GetResult(ctx context.Context) interface{} {
 	return "r"
 }
 
-// keyIndex: the index (in the executed-field list handed to the model) of the field with this response key; a key
+// pathStr: a response path as text: keys and list indices joined by "/"
+func pathStr(p *graphql.ResponsePath) string {
+	parts := []string{}
+	for _, k := range p.AsArray() {
+		parts = append(parts, fmt.Sprint(k))
+	}
+	return strings.Join(parts, "/")
+}
+
+// tabEntry: the table entry [index, outcome, runtime type, list length, meta] of the field at this response path. The
+// table is keyed by the full path for positions below a list and for unaliased fields, by the response key alone
+// otherwise (every aliased field has its own response key); nil = the field must not run.
+func tabEntry(p *graphql.ResponsePath) []int {
+	if p == nil {
+		return nil
+	}
+	if e, ok := curTab[pathStr(p)]; ok {
+		return e
+	}
+	if s, ok := p.Key.(string); ok {
+		if e, ok := curTab[s]; ok {
+			return e
+		}
+	}
+	return nil
+}
+
+func entryAt(e []int, i int) int {
+	if i < len(e) {
+		return e[i]
+	}
+	return 0
+}
+
+// keyIndex: the index (in the executed-field list handed to the model) of the field at this response path; a path
 // that is not in the table belongs to a field that must not run
 func keyIndex(p *graphql.ResponsePath) int {
-	if p != nil {
-		if s, ok := p.Key.(string); ok {
-			if e, ok := curTab[s]; ok {
-				return e[0]
-			}
-		}
+	if e := tabEntry(p); e != nil {
+		return e[0]
 	}
 	return 999
 }
 
-func resolve(p graphql.ResolveParams) (interface{}, error) {
+// enterResolver is what every resolve function of the harness does first -- the user resolvers of the test schema and
+// the wrappers put around the library's own meta-field resolve functions (instrumentMeta): log the pseudo event
+// "resolver" for the field, and let the gate hold the executor here if the case asks for it.
+func enterResolver(p *graphql.ResponsePath) (entry []int) {
 	gateFirst()
-	key, _ := p.Info.Path.Key.(string)
-	fld := keyIndex(p.Info.Path)
-	oc := 0
-	if e, ok := curTab[key]; ok {
-		oc = e[1]
-	}
+	entry = tabEntry(p)
+	fld := keyIndex(p)
+	oc := entryAt(entry, 1)
 	o, f := outOk, 0
 	if oc != 0 {
 		o = outErr
@@ -269,16 +309,62 @@ func resolve(p graphql.ResolveParams) (interface{}, error) {
 		close(gate.entered)
 		<-gate.release
 	}
-	switch oc {
+	return entry
+}
+
+var typeNames = []string{"Obj", "Alt"}
+
+// value: what a resolver returns for a field of type t; rt = runtime type of an abstract value (0 Obj, 1 Alt; the
+// elements of a list of abstract values alternate, starting with rt), n = length of a list
+func value(t graphql.Type, rt, n int) interface{} {
+	switch tt := graphql.GetNullable(t).(type) {
+	case *graphql.Object:
+		return map[string]interface{}{}
+	case *graphql.Interface, *graphql.Union:
+		return map[string]interface{}{"__t": typeNames[rt%2]}
+	case *graphql.List:
+		l := make([]interface{}, 0, n)
+		for j := 0; j < n; j++ {
+			l = append(l, value(tt.OfType, rt+j, 0))
+		}
+		return l
+	}
+	return "v"
+}
+
+func resolve(p graphql.ResolveParams) (interface{}, error) {
+	entry := enterResolver(p.Info.Path)
+	switch entryAt(entry, 1) {
 	case 1, 3:
 		return nil, errors.New("field failed")
 	case 2, 4:
 		panic("resolver boom")
 	}
-	if _, isObj := graphql.GetNullable(p.Info.ReturnType).(*graphql.Object); isObj {
-		return map[string]interface{}{}, nil
+	return value(p.Info.ReturnType, entryAt(entry, 2), entryAt(entry, 3)), nil
+}
+
+// instrumentMeta wraps the resolve functions of the library's meta fields (__typename, __schema, __type) and of the
+// two introspection fields the requests select below them (__Schema.queryType, __Type.name): the wrapper logs the
+// pseudo event "resolver" like the resolvers of the test schema do and then calls the library's function (a nil
+// Resolve means DefaultResolveFn, plan.go resolvePlannedField). The FieldDefinition objects stay the same, so the
+// library sees its own definitions.
+func instrumentMeta() error {
+	defs := []*graphql.FieldDefinition{graphql.TypeNameMetaFieldDef, graphql.SchemaMetaFieldDef, graphql.TypeMetaFieldDef,
+		graphql.SchemaType.Fields()["queryType"], graphql.TypeType.Fields()["name"]}
+	for _, fd := range defs {
+		if fd == nil {
+			return errors.New("a meta field definition is missing")
+		}
+		orig := fd.Resolve
+		if orig == nil {
+			orig = graphql.DefaultResolveFn
+		}
+		fd.Resolve = func(p graphql.ResolveParams) (interface{}, error) {
+			enterResolver(p.Info.Path)
+			return orig(p)
+		}
 	}
-	return "v", nil
+	return nil
 }
 
 const maxExt = 4
@@ -288,25 +374,52 @@ var (
 	schemas [maxExt + 1]graphql.Schema
 )
 
+// the test schema: Query / Mutation { f g o h i u l li }, Obj implements I { c o i u l li }, Alt implements I { c d o },
+// interface I { c }, union U = Obj | Alt, l: [Obj], li: [I]
 func newSchema(exts []graphql.Extension) (graphql.Schema, error) {
-	var objT *graphql.Object
-	objT = graphql.NewObject(graphql.ObjectConfig{Name: "Obj", Fields: (graphql.FieldsThunk)(func() graphql.Fields {
+	var objT, altT *graphql.Object
+	var ifT *graphql.Interface
+	var unT *graphql.Union
+	resolveType := func(p graphql.ResolveTypeParams) *graphql.Object {
+		if m, ok := p.Value.(map[string]interface{}); ok && m["__t"] == "Alt" {
+			return altT
+		}
+		return objT
+	}
+	ifT = graphql.NewInterface(graphql.InterfaceConfig{Name: "I", ResolveType: resolveType,
+		Fields: graphql.Fields{"c": &graphql.Field{Type: graphql.String}}})
+	composite := func(fs graphql.Fields) graphql.Fields {
+		fs["o"] = &graphql.Field{Type: objT, Resolve: resolve}
+		fs["i"] = &graphql.Field{Type: ifT, Resolve: resolve}
+		fs["u"] = &graphql.Field{Type: unT, Resolve: resolve}
+		fs["l"] = &graphql.Field{Type: graphql.NewList(objT), Resolve: resolve}
+		fs["li"] = &graphql.Field{Type: graphql.NewList(ifT), Resolve: resolve}
+		return fs
+	}
+	objT = graphql.NewObject(graphql.ObjectConfig{Name: "Obj", Interfaces: []*graphql.Interface{ifT}, Fields: (graphql.FieldsThunk)(func() graphql.Fields {
+		return composite(graphql.Fields{
+			"c": &graphql.Field{Type: graphql.String, Resolve: resolve},
+		})
+	})})
+	altT = graphql.NewObject(graphql.ObjectConfig{Name: "Alt", Interfaces: []*graphql.Interface{ifT}, Fields: (graphql.FieldsThunk)(func() graphql.Fields {
 		return graphql.Fields{
 			"c": &graphql.Field{Type: graphql.String, Resolve: resolve},
+			"d": &graphql.Field{Type: graphql.String, Resolve: resolve},
 			"o": &graphql.Field{Type: objT, Resolve: resolve},
 		}
 	})})
+	unT = graphql.NewUnion(graphql.UnionConfig{Name: "U", Types: []*graphql.Object{objT, altT}, ResolveType: resolveType})
 	rootFields := func() graphql.Fields {
-		return graphql.Fields{
+		return composite(graphql.Fields{
 			"f": &graphql.Field{Type: graphql.String, Resolve: resolve},
 			"g": &graphql.Field{Type: graphql.NewNonNull(graphql.String), Resolve: resolve},
-			"o": &graphql.Field{Type: objT, Resolve: resolve},
 			"h": &graphql.Field{Type: graphql.String, Args: graphql.FieldConfigArgument{"a": &graphql.ArgumentConfig{Type: graphql.Int}}, Resolve: resolve},
-		}
+		})
 	}
 	return graphql.NewSchema(graphql.SchemaConfig{
 		Query:      graphql.NewObject(graphql.ObjectConfig{Name: "Query", Fields: rootFields()}),
 		Mutation:   graphql.NewObject(graphql.ObjectConfig{Name: "Mutation", Fields: rootFields()}),
+		Types:      []graphql.Type{altT},
 		Extensions: exts,
 	})
 }
@@ -320,6 +433,9 @@ func poolExts(n int) []graphql.Extension {
 }
 
 func buildSchemas() error {
+	if err := instrumentMeta(); err != nil {
+		return err
+	}
 	for i := range pool {
 		pool[i] = &tExt{idx: i}
 	}
@@ -336,9 +452,17 @@ func buildSchemas() error {
 
 // ---------------------------------------------------------------- request shapes
 
-// fieldSpec: kind f (String), g (String!, root only), o (Obj with children): a field with resolver outcome 0..4;
-// kind "inline" / "spread": an inline fragment / a spread of a named fragment wrapping Children (same parent type).
+// fieldSpec: kind f (String; named c below the root), g (String!, root only), d (String, Alt only), t (__typename),
+// o (Obj), i (interface I), u (union U), l ([Obj]), li ([I]) with children: a field with resolver outcome 0..4;
+// kind "schema" / "type": `__schema { queryType { name } }` / `__type(name: "Obj") { name }` (query root only; every
+// field of the introspection sub-tree is an executed field);
+// kind "inline" / "spread": an inline fragment / a spread of a named fragment wrapping Children, with type condition
+// On ("" = the enclosing type).
 // Dir: 0 none, 1 @include, 2 @skip; DirVar >= 0: `if: $w<DirVar>`, else the literal DirLit.
+// RT (i, u, li): runtime type of the value, 0 Obj, 1 Alt (list elements alternate starting with RT); N (l, li): length.
+// NoAlias: the field is selected without an alias (its response key is its name). Dup (leaf kinds): the field is
+// selected twice under the same response key -- 1: both occurrences carry the directive, 2: the second one carries
+// none (so the merged field always runs).
 type fieldSpec struct {
 	Kind     string
 	Outcome  int
@@ -346,6 +470,11 @@ type fieldSpec struct {
 	Dir      int
 	DirVar   int
 	DirLit   bool
+	On       string
+	RT       int
+	N        int
+	NoAlias  bool
+	Dup      int
 }
 
 func (f fieldSpec) active(vars map[string]interface{}) bool {
@@ -377,54 +506,224 @@ func (f fieldSpec) dirText(used map[int]bool) string {
 	return " " + name + "(if: " + strconv.FormatBool(f.DirLit) + ")"
 }
 
-// render produces the document (every field under its own response key "a<n>", n in text order) and, for the given
-// variable values, the list of fields that run in execution order (depth first; not: fields excluded by a
-// directive, children of a failing parent) with the table response key -> [index, outcome].
-func render(fs []fieldSpec, mutation bool, vars map[string]interface{}) (query string, flat []int, table map[string][]int) {
+func isRootType(typ string) bool { return typ == "Query" || typ == "Mutation" }
+
+// condApplies: does a fragment with type condition on apply to an object of concrete type rt (I and U both contain
+// Obj and Alt; a root type only ever meets its own name)
+func condApplies(on, rt string) bool { return on == rt || on == "I" || on == "U" }
+
+// table entry: [index in the executed-field list, outcome, runtime type, list length, meta (1 __typename, 2 another
+// meta / introspection field)]
+const (
+	metaTypename = 1
+	metaOther    = 2
+)
+
+// render produces the document (every aliased field under its own response key "a<n>", n in text order) and, for the
+// given variable values, the list of fields that run in execution order (depth first, once per list element; not:
+// fields excluded by a directive or by a type condition, children of a failing parent, a second selection of a
+// response key already collected for the same object) with the table path -> entry, and the features of the document.
+func render(fs []fieldSpec, mutation bool, vars map[string]interface{}) (query string, flat []int, table map[string][]int, feats []string) {
 	table = map[string][]int{}
 	used := map[int]bool{}
+	featSet := map[string]bool{}
 	nKey, nFrag := 0, 0
 	frags := ""
 	rootType := "Query"
 	if mutation {
 		rootType = "Mutation"
 	}
-	var sel func(fs []fieldSpec, live bool, root bool, typ string) string
-	sel = func(fs []fieldSpec, live bool, root bool, typ string) string {
+	keys := map[*fieldSpec]string{}      // response key of a field
+	subKeys := map[*fieldSpec][]string{} // schema / type: response keys of the introspection sub-tree
+	newKey := func() string {
+		k := "a" + strconv.Itoa(nKey)
+		nKey++
+		return k
+	}
+	// ---- pass 1: the text
+	var text func(fs []fieldSpec, typ string, inList bool) string
+	text = func(fs []fieldSpec, typ string, inList bool) string {
 		var b strings.Builder
 		b.WriteString("{ ")
-		for _, f := range fs {
-			act := live && f.active(vars)
+		for i := range fs {
+			f := &fs[i]
 			switch f.Kind {
-			case "inline":
-				b.WriteString("... on " + typ + f.dirText(used) + " " + sel(f.Children, act, root, typ))
-			case "spread":
-				name := "F" + strconv.Itoa(nFrag)
-				nFrag++
-				b.WriteString("..." + name + f.dirText(used) + " ")
-				body := sel(f.Children, act, root, typ)
-				frags += "fragment " + name + " on " + typ + " " + body
+			case "inline", "spread":
+				on := f.On
+				if on == "" {
+					on = typ
+				}
+				if f.Kind == "inline" {
+					b.WriteString("... on " + on + f.dirText(used) + " " + text(f.Children, on, inList))
+				} else {
+					name := "F" + strconv.Itoa(nFrag)
+					nFrag++
+					b.WriteString("..." + name + f.dirText(used) + " ")
+					body := text(f.Children, on, inList)
+					frags += "fragment " + name + " on " + on + " " + body
+				}
+				if f.On != "" && f.On != typ {
+					featSet["type-condition"] = true
+				}
 			default:
-				key := "a" + strconv.Itoa(nKey)
-				nKey++
-				if act {
-					table[key] = []int{len(flat), f.Outcome}
-					flat = append(flat, f.Outcome)
-				}
 				name := f.Kind
-				if !root && name == "f" {
-					name = "c"
+				switch f.Kind {
+				case "f":
+					if !isRootType(typ) {
+						name = "c"
+					}
+				case "t":
+					name = "__typename"
+				case "schema":
+					name = "__schema"
+				case "type":
+					name = "__type"
 				}
-				b.WriteString(key + ": " + name + f.dirText(used) + " ")
-				if f.Kind == "o" {
-					b.WriteString(sel(f.Children, act && f.Outcome == 0, false, "Obj"))
+				sel := name
+				if f.NoAlias {
+					keys[f] = name
+				} else {
+					keys[f] = newKey()
+					sel = keys[f] + ": " + name
+				}
+				if f.Kind == "type" {
+					sel += "(name: \"Obj\")"
+				}
+				b.WriteString(sel + f.dirText(used) + " ")
+				switch f.Dup {
+				case 1:
+					b.WriteString(sel + f.dirText(used) + " ")
+				case 2:
+					b.WriteString(sel + " ")
+				}
+				if f.Kind == "t" {
+					featSet["typename"] = true
+					switch {
+					case isRootType(typ):
+						featSet["typename:root"] = true
+					case typ == "I" || typ == "U":
+						featSet["typename:abstract-parent"] = true
+					default:
+						featSet["typename:object-parent"] = true
+					}
+					if inList {
+						featSet["typename:under-list"] = true
+					}
+					if f.NoAlias {
+						featSet["typename:unaliased"] = true
+					} else {
+						featSet["typename:aliased"] = true
+					}
+					if f.Dup != 0 {
+						featSet["typename:duplicated"] = true
+					}
+					if f.Dir != 0 {
+						if f.DirVar >= 0 {
+							featSet["typename:variable-directive"] = true
+						} else {
+							featSet["typename:literal-directive"] = true
+						}
+					}
+				}
+				switch f.Kind {
+				case "o":
+					b.WriteString(text(f.Children, "Obj", inList))
+				case "i":
+					b.WriteString(text(f.Children, "I", inList))
+				case "u":
+					b.WriteString(text(f.Children, "U", inList))
+				case "l":
+					b.WriteString(text(f.Children, "Obj", true))
+				case "li":
+					b.WriteString(text(f.Children, "I", true))
+				case "schema":
+					k1, k2 := newKey(), newKey()
+					subKeys[f] = []string{k1, k2}
+					b.WriteString("{ " + k1 + ": queryType { " + k2 + ": name } } ")
+					featSet["meta:__schema"] = true
+				case "type":
+					k1 := newKey()
+					subKeys[f] = []string{k1}
+					b.WriteString("{ " + k1 + ": name } ")
+					featSet["meta:__type"] = true
+				}
+				if f.Kind == "i" || f.Kind == "u" || f.Kind == "li" {
+					featSet["abstract-field"] = true
+				}
+				if f.Kind == "l" || f.Kind == "li" {
+					featSet["list-field"] = true
 				}
 			}
 		}
 		b.WriteString("} ")
 		return b.String()
 	}
-	body := sel(fs, true, true, rootType)
+	body := text(fs, rootType, false)
+	// ---- pass 2: what runs (typ = the concrete type of the object the selection is executed for)
+	add := func(tk string, outcome, rt, n, meta int) bool {
+		if _, dup := table[tk]; dup {
+			return false
+		}
+		table[tk] = []int{len(flat), outcome, rt, n, meta}
+		flat = append(flat, outcome)
+		return true
+	}
+	var walk func(fs []fieldSpec, typ string, prefix string, inList bool)
+	walk = func(fs []fieldSpec, typ string, prefix string, inList bool) {
+		for i := range fs {
+			f := &fs[i]
+			switch f.Kind {
+			case "inline", "spread":
+				if f.active(vars) && (f.On == "" || condApplies(f.On, typ)) {
+					walk(f.Children, typ, prefix, inList)
+				}
+			default:
+				if !(f.active(vars) || f.Dup == 2) {
+					continue
+				}
+				path := prefix + keys[f]
+				tk := keys[f]
+				if inList || f.NoAlias {
+					tk = path
+				}
+				meta := 0
+				switch f.Kind {
+				case "t":
+					meta = metaTypename
+				case "schema", "type":
+					meta = metaOther
+				}
+				if !add(tk, f.Outcome, f.RT, f.N, meta) {
+					continue // this response key is already collected for this object: the selections merge
+				}
+				if meta == metaTypename {
+					featSet["typename:runs"] = true
+				}
+				if f.Outcome != 0 {
+					continue
+				}
+				switch f.Kind {
+				case "o":
+					walk(f.Children, "Obj", path+"/", inList)
+				case "i", "u":
+					walk(f.Children, typeNames[f.RT%2], path+"/", inList)
+				case "l":
+					for j := 0; j < f.N; j++ {
+						walk(f.Children, "Obj", path+"/"+strconv.Itoa(j)+"/", true)
+					}
+				case "li":
+					for j := 0; j < f.N; j++ {
+						walk(f.Children, typeNames[(f.RT+j)%2], path+"/"+strconv.Itoa(j)+"/", true)
+					}
+				case "schema", "type":
+					for _, k := range subKeys[f] {
+						add(k, 0, 0, 0, metaOther)
+					}
+				}
+			}
+		}
+	}
+	walk(fs, rootType, "", false)
 	op := "query Q"
 	if mutation {
 		op = "mutation Q"
@@ -444,12 +743,16 @@ func render(fs []fieldSpec, mutation bool, vars map[string]interface{}) (query s
 	if flat == nil {
 		flat = []int{}
 	}
-	return op + " " + body + frags, flat, table
+	for k := range featSet {
+		feats = append(feats, k)
+	}
+	sort.Strings(feats)
+	return op + " " + body + frags, flat, table, feats
 }
 
 func execReqV(shape string, fs []fieldSpec, mutation bool, vars map[string]interface{}) reqT {
-	q, flat, table := render(fs, mutation, vars)
-	r := reqT{Class: "exec", Fields: flat, Query: q, Shape: shape, Table: table}
+	q, flat, table, feats := render(fs, mutation, vars)
+	r := reqT{Class: "exec", Fields: flat, Query: q, Shape: shape, Table: table, Feat: feats}
 	if len(vars) > 0 {
 		// only the variables the document declares
 		r.Vars = map[string]interface{}{}
@@ -523,6 +826,111 @@ type goResult struct {
 	Keys     []int    `json:"keys"`
 	HasData  bool     `json:"hasData"`
 	Escaped  string   `json:"escaped,omitempty"`
+	// response-tree oracle (only when the response has data): the field positions of the response data, the paths each
+	// extension was notified of, and what is wrong ("" = one notification per field position, each finished once)
+	Tree *treeT `json:"tree,omitempty"`
+}
+
+// treeT: "one resolve notification per executed field", decided against the RESPONSE alone: every (object value,
+// response key) position present in Result.Data is a field that was executed for that object, so every registered
+// extension must have got exactly one ResolveFieldDidStart carrying that path -- and no other -- and, if the start
+// hook returned, exactly one call of the finish function it returned. Needs neither the model nor the resolver log,
+// so it also speaks about fields that have no resolver of the test schema (__typename, __schema, __type, ...).
+type treeT struct {
+	Positions      []string            `json:"positions"`
+	Started        map[string][]string `json:"started"`  // "x<name>#<registration index>" -> paths of its ResolveFieldDidStart calls
+	Finished       map[string][]string `json:"finished"` // ... of the finish calls
+	Mismatch       string              `json:"mismatch,omitempty"`
+	TypenameFields int                 `json:"typenameFields"`        // __typename positions in the response
+	TypenameNotifs int                 `json:"typenameNotifications"` // ResolveFieldDidStart calls for them (all extensions)
+}
+
+// positions lists the path of every field position of the response data (list indices are part of the path)
+func positions(prefix string, v interface{}, out *[]string) {
+	switch val := v.(type) {
+	case map[string]interface{}:
+		for k, sub := range val {
+			p := k
+			if prefix != "" {
+				p = prefix + "/" + k
+			}
+			*out = append(*out, p)
+			positions(p, sub, out)
+		}
+	case []interface{}:
+		for i, sub := range val {
+			positions(prefix+"/"+strconv.Itoa(i), sub, out)
+		}
+	}
+}
+
+func sameStrings(a, b []string) bool {
+	if len(a) != len(b) {
+		return false
+	}
+	for i := range a {
+		if a[i] != b[i] {
+			return false
+		}
+	}
+	return true
+}
+
+func treeOracle(c caseT, data interface{}, log []evT, tab map[string][]int) *treeT {
+	t := &treeT{Positions: []string{}, Started: map[string][]string{}, Finished: map[string][]string{}}
+	positions("", data, &t.Positions)
+	sort.Strings(t.Positions)
+	isTypename := func(path string) bool {
+		e, ok := tab[path]
+		if !ok {
+			e, ok = tab[path[strings.LastIndex(path, "/")+1:]]
+		}
+		return ok && entryAt(e, 4) == metaTypename
+	}
+	for _, p := range t.Positions {
+		if isTypename(p) {
+			t.TypenameFields++
+		}
+	}
+	nameCount := map[int]int{}
+	for _, x := range c.Exts {
+		nameCount[x.Name]++
+	}
+	for i, x := range c.Exts {
+		id := "x" + strconv.Itoa(x.Name) + "#" + strconv.Itoa(i)
+		started, returned, finished := []string{}, []string{}, []string{}
+		for _, e := range log {
+			if e.idx != i {
+				continue
+			}
+			switch e.hook {
+			case hResStart:
+				started = append(started, e.path)
+				if e.fault == 0 {
+					returned = append(returned, e.path)
+				}
+				if isTypename(e.path) {
+					t.TypenameNotifs++
+				}
+			case hResEnd:
+				finished = append(finished, e.path)
+			}
+		}
+		sort.Strings(started)
+		sort.Strings(returned)
+		sort.Strings(finished)
+		t.Started[id], t.Finished[id] = started, finished
+		if t.Mismatch != "" {
+			continue
+		}
+		if !sameStrings(started, t.Positions) {
+			t.Mismatch = fmt.Sprintf("extension %s got ResolveFieldDidStart for %d fields %v, the response data has the %d field positions %v", id, len(started), started, len(t.Positions), t.Positions)
+		} else if nameCount[x.Name] == 1 && !sameStrings(finished, returned) {
+			// (of extensions sharing a name only one finish function survives: outside the property)
+			t.Mismatch = fmt.Sprintf("extension %s: resolve phases started (hook returned) for %v, finished for %v", id, returned, finished)
+		}
+	}
+	return t
 }
 
 var errRe = regexp.MustCompile(`^x(\d+)\.(\w+): (E|S|42)$`)
@@ -723,6 +1131,7 @@ func runGo(c caseT, pp prepared, rq reqT) goResult {
 	}
 	mu.Lock()
 	all := wireLog(curLog)
+	rawLog := append([]evT{}, curLog...)
 	mu.Unlock()
 	g := goResult{Log: all[:nNow], Late: all[nNow:], Errors: [][]int{}, Keys: []int{}, Messages: []string{}}
 	if !drained {
@@ -750,6 +1159,9 @@ func runGo(c caseT, pp prepared, rq reqT) goResult {
 	}
 	sort.Ints(g.Keys)
 	g.HasData = res.Data != nil
+	if data, ok := res.Data.(map[string]interface{}); ok {
+		g.Tree = treeOracle(c, data, rawLog, tableOf(rq))
+	}
 	return g
 }
 
@@ -803,6 +1215,22 @@ func lit(f fieldSpec, dir int, val bool) fieldSpec {
 	return f
 }
 
+// __typename selections: tn aliased, tnu unaliased; dup: selected twice under one response key (see fieldSpec.Dup)
+func tn() fieldSpec                        { return fld("t", 0) }
+func tnu() fieldSpec                       { f := fld("t", 0); f.NoAlias = true; return f }
+func dup(f fieldSpec, d int) fieldSpec     { f.Dup = d; return f }
+func on(f fieldSpec, typ string) fieldSpec { f.On = typ; return f }
+func abs(kind string, rt int, children ...fieldSpec) fieldSpec {
+	f := fld(kind, 0, children...)
+	f.RT = rt
+	return f
+}
+func list(kind string, rt, n int, children ...fieldSpec) fieldSpec {
+	f := fld(kind, 0, children...)
+	f.RT, f.N = rt, n
+	return f
+}
+
 func boolVars(vals ...bool) map[string]interface{} {
 	m := map[string]interface{}{}
 	for i, v := range vals {
@@ -841,9 +1269,38 @@ func directiveShapes() []dirShape {
 	}
 }
 
+// typenameShapes: __typename (a field without a resolver of the schema, executed by the library's own definition) at
+// the root of a query and of a mutation, below object / interface / union values, aliased and not, selected twice
+// (merged), inside fragments with and without type conditions, below lists, with literal and variable-driven
+// directives; and the other meta fields __schema / __type with an introspection sub-tree.
+func typenameShapes() []dirShape {
+	return []dirShape{
+		{"tn-root", []fieldSpec{tnu(), fld("f", 0), tn()}, false, nil, nil},
+		{"tn-root-mutation", []fieldSpec{fld("f", 1), tn(), fld("g", 0), tnu()}, true, nil, nil},
+		{"tn-object", []fieldSpec{fld("o", 0, tn(), fld("f", 0), fld("o", 0, tnu())), fld("o", 2, tn()), tn()}, false, nil, nil},
+		{"tn-abstract", []fieldSpec{
+			abs("i", 1, tnu(), fld("f", 0), on(fld("inline", 0, fld("d", 0), tn()), "Alt"), on(fld("inline", 0, tn(), fld("o", 0, tn())), "Obj")),
+			abs("u", 0, tn(), on(fld("spread", 0, fld("f", 1), tnu()), "Obj"), on(fld("inline", 0, tn()), "Alt"), on(fld("inline", 0, tn(), tnu()), "I")),
+			abs("u", 1, tnu()),
+		}, false, nil, nil},
+		{"tn-list", []fieldSpec{
+			list("l", 0, 2, tn(), fld("f", 0)),
+			list("li", 1, 3, tnu(), on(fld("inline", 0, fld("d", 0)), "Alt"), on(fld("spread", 0, tn(), list("l", 0, 1, tnu())), "Obj")),
+			list("l", 0, 0, tn()),
+		}, false, nil, nil},
+		{"tn-merged", []fieldSpec{dup(tnu(), 1), fld("spread", 0, tnu(), fld("f", 0)), fld("inline", 0, tnu()), dup(tn(), 1), fld("o", 0, dup(tnu(), 1), fld("inline", 0, tnu()))}, false, nil, nil},
+		{"tn-dir", []fieldSpec{inc(tn(), 0), skp(tn(), 0), dup(skp(tn(), 1), 1), dup(inc(tn(), 1), 2), lit(tn(), 1, false), lit(tn(), 2, false),
+			inc(fld("inline", 0, tn(), fld("f", 0)), 0), skp(fld("spread", 0, tn()), 1),
+			abs("i", 0, inc(tn(), 1), skp(on(fld("inline", 0, tn()), "Obj"), 0))}, false, boolVars(true, false), boolVars(false, true)},
+		{"tn-dir-mutation", []fieldSpec{skp(tnu(), 0), fld("f", 0), list("l", 0, 2, inc(tn(), 0), fld("f", 0))}, true, boolVars(false), boolVars(true)},
+		{"meta-schema-type", []fieldSpec{fld("schema", 0), tn(), fld("type", 0), fld("f", 0)}, false, nil, nil},
+		{"meta-dir", []fieldSpec{inc(fld("schema", 0), 0), skp(fld("type", 0), 0), tnu()}, false, boolVars(true), boolVars(false)},
+	}
+}
+
 func main() {
 	run := hx.Begin("C17")
-	run.Res.Rule = "0-4 instrumented extensions x request of every outcome class (syntax, validation, operation selection, variable coercion, executed fields ok/err/panic incl. non-null root failures, nested selections, variable-driven and literal @skip/@include on fields / inline fragments / fragment spreads, queries and mutations) x fault assignment (each of the 11 hooks per extension: ok or panic with error/string/int) x entry point (graphql.Do; Do after AddExtensions; PlanQuery or PlanCache.Get before or after AddExtensions followed by ExecutePlan, the plan executed again with other variable values) x request context (live; cancelled or past its deadline before the call; cancelled / deadline expiring while a resolver runs; cancelled inside a finish hook). All single and double faults for 1 and 2 extensions are enumerated over the fixed request shapes on Do with a live context; no fault and all single faults over the directive shapes x entry points and over the context states; the rest is random. non-trivial = at least one extension and (a faulty hook, or a request that is not a plain success, or a directive, or an entry other than Do, or a context that is not live); distinct by (extension configs, request text, variables, entry, context state)"
+	run.Res.Rule = "0-4 instrumented extensions x request of every outcome class (syntax, validation, operation selection, variable coercion, executed fields ok/err/panic incl. non-null root failures, nested selections below object / interface / union values and below lists (executed once per element), fragments with type conditions, variable-driven and literal @skip/@include on fields / inline fragments / fragment spreads, the meta fields __typename (root of query and mutation, object / abstract parents, below lists, aliased and not, selected twice under one response key, with directives) and __schema / __type with an introspection sub-tree, queries and mutations) x fault assignment (each of the 11 hooks per extension: ok or panic with error/string/int) x entry point (graphql.Do; Do after AddExtensions; PlanQuery or PlanCache.Get before or after AddExtensions followed by ExecutePlan, the plan executed again with other variable values) x request context (live; cancelled or past its deadline before the call; cancelled / deadline expiring while a resolver runs; cancelled inside a finish hook). All single and double faults for 1 and 2 extensions are enumerated over the fixed request shapes on Do with a live context; no fault and all single faults over the directive shapes and the __typename / meta-field shapes x entry points and over the context states; the rest is random. Besides the comparison with the model, whenever the response has data the resolve notifications of every extension are compared with the field positions of Result.Data (one ResolveFieldDidStart with that path per (object value, response key) position, no other, each started phase finished once): an oracle that needs neither the model nor a resolver log. non-trivial = at least one extension and (a faulty hook, or a request that is not a plain success, or a directive, or an entry other than Do, or a context that is not live); distinct by (extension configs, request text, variables, entry, context state)"
 	if err := buildSchemas(); err != nil {
 		run.CheckError("cannot build schemas: " + err.Error())
 		run.Finish()
@@ -857,6 +1314,7 @@ func main() {
 	}
 	defer drv.Close()
 
+	typenameNotifs, treePositions := 0, 0
 	oneExec := func(c caseT, pp prepared, rq reqT, origin string, nth int) {
 		g := runGo(c, pp, rq)
 		var m modelResp
@@ -938,6 +1396,23 @@ func main() {
 		if len(g.Late) > 0 {
 			run.Tag("executor-outlived-the-call")
 		}
+		for _, f := range rq.Feat {
+			run.Tag("doc:" + f)
+			if f == "typename" {
+				run.Tag("typenameSelected")
+			}
+		}
+		if g.Tree != nil {
+			run.Tag("response-tree-oracle")
+			if g.Tree.TypenameFields > 0 {
+				run.Tag("typenameInResponse")
+			}
+			if g.Tree.TypenameNotifs > 0 {
+				run.Tag("typenameNotifications")
+				typenameNotifs += g.Tree.TypenameNotifs
+			}
+			treePositions += len(g.Tree.Positions)
+		}
 		key := hx.Canon(c.Exts) + "|" + rq.Query + "|" + hx.Canon(rq.Vars) + "|" + entry + "|" + ctxMode + "|" + strconv.Itoa(c.CtxAt)
 		sample := map[string]interface{}{"exts": c.Exts, "query": rq.Query, "vars": rq.Vars, "class": rq.Class, "entry": entry, "ctx": ctxMode, "events": len(g.Log), "late_events": len(g.Late), "errors": len(g.Errors)}
 		run.Case(key, len(c.Exts) > 0 && (nFault > 0 || !plainSuccess || entry != "do" || ctxMode != "live" || strings.Contains(rq.Query, "@")), sample)
@@ -945,6 +1420,10 @@ func main() {
 
 		if g.Escaped != "" {
 			run.Violation("the request was taken down: "+g.Escaped, replay, false)
+			return
+		}
+		if g.Tree != nil && g.Tree.Mismatch != "" {
+			run.Violation("one resolve notification per executed field fails against the response data: "+g.Tree.Mismatch+" ("+"entry "+entry+", context "+ctxMode+")", replay, false)
 			return
 		}
 		same := func(a, b [][]int) bool {
@@ -1090,6 +1569,7 @@ func main() {
 		{"ctx-ok-ok", leafs(0, 0), []int{0, 1}},
 		{"ctx-err-panic-ok", leafs(1, 2, 0), []int{0, 1, 2}},
 		{"ctx-nested", []fieldSpec{fld("o", 0, fld("f", 0), fld("f", 1)), fld("g", 3), fld("f", 0)}, []int{1, 3}},
+		{"ctx-typename", []fieldSpec{tn(), list("l", 0, 2, tnu(), fld("f", 0)), fld("f", 0)}, []int{0, 2, 4}},
 	}
 	for nExt := 1; nExt <= 2 && !run.TooManyViolations(); nExt++ {
 		slots := nExt * 11
@@ -1108,7 +1588,7 @@ func main() {
 				f(xs)
 			}
 		}
-		for _, ds := range directiveShapes() {
+		for _, ds := range append(directiveShapes(), typenameShapes()...) {
 			for _, en := range entries {
 				if !run.Thorough() && nExt == 2 && (en == "do-addext" || en == "cache") {
 					continue // quick tier: these two entries with one extension only
@@ -1222,8 +1702,26 @@ func main() {
 				}
 				return f
 			}
-			var gen func(depth int, root bool, wraps int) []fieldSpec
-			gen = func(depth int, root bool, wraps int) []fieldSpec {
+			mutation := r.Chance(1, 4)
+			pTn := []int{0, 1, 2, 3}[r.Intn(4)] // of 8: how often a selection is __typename
+			pAbs := []int{0, 1, 2}[r.Intn(3)]   // of 2: how often a composite field is abstract / a list rather than o
+			// gen: a selection set for an object of static type typ; tnUsed: an unaliased __typename is already selected
+			// for this object (directly or through a fragment; a second one only as an adjacent duplicate, so that the
+			// position of the merged field does not depend on the directives)
+			var gen func(depth int, typ string, wraps int, tnUsed *bool) []fieldSpec
+			gen = func(depth int, typ string, wraps int, tnUsed *bool) []fieldSpec {
+				root := isRootType(typ)
+				abstract := typ == "I" || typ == "U"
+				typename := func() fieldSpec {
+					f := tn()
+					if !*tnUsed && r.Chance(1, 3) {
+						f.NoAlias, *tnUsed = true, true
+					}
+					if r.Chance(1, 6) {
+						f.Dup = 1 + r.Intn(2)
+					}
+					return f
+				}
 				k := r.Range(1, 3)
 				fs := make([]fieldSpec, 0, k)
 				for j := 0; j < k; j++ {
@@ -1232,23 +1730,45 @@ func main() {
 						f.Outcome = 1 + r.Intn(2)
 					}
 					switch {
-					case pDir > 0 && wraps < 2 && r.Chance(1, 5):
-						f = fld([]string{"inline", "spread"}[r.Intn(2)], 0, gen(depth, root, wraps+1)...)
-					case depth < 2 && r.Chance(1, 4):
+					case r.Chance(pTn, 8) || (typ == "U" && wraps >= 2):
+						f = typename()
+					case wraps < 2 && ((pDir > 0 && r.Chance(1, 5)) || (abstract && r.Chance(1, 2)) || typ == "U"):
+						cond := ""
+						if abstract && r.Chance(3, 4) {
+							cond = []string{"Obj", "Alt", "I", "U"}[r.Intn(4)]
+							if cond == "U" && typ == "I" {
+								cond = "Obj"
+							}
+						}
+						ctyp := typ
+						if cond != "" {
+							ctyp = cond
+						}
+						f = fld([]string{"inline", "spread"}[r.Intn(2)], 0, gen(depth, ctyp, wraps+1, tnUsed)...)
+						f.On = cond
+					case depth < 2 && !abstract && r.Chance(1, 4):
 						f.Kind = "o"
-						f.Children = gen(depth+1, false, wraps)
+						if typ != "Alt" && r.Chance(pAbs, 2) {
+							f.Kind = []string{"i", "u", "l", "li"}[r.Intn(4)]
+							f.RT, f.N = r.Intn(2), r.Intn(3)
+						}
+						ctyp := map[string]string{"o": "Obj", "l": "Obj", "i": "I", "li": "I", "u": "U"}[f.Kind]
+						f.Children = gen(depth+1, ctyp, wraps, new(bool))
 					case root && r.Chance(1, 5):
 						f.Kind = "g"
 						if f.Outcome != 0 {
 							f.Outcome += 2
 						}
+					case root && !mutation && pTn > 0 && r.Chance(1, 8):
+						f = fld([]string{"schema", "type"}[r.Intn(2)], 0)
+					case typ == "Alt" && r.Chance(1, 2):
+						f.Kind = "d"
 					}
 					fs = append(fs, dir(f))
 				}
 				return fs
 			}
-			fs := gen(0, true, 0)
-			mutation := r.Chance(1, 4)
+			fs := gen(0, map[bool]string{false: "Query", true: "Mutation"}[mutation], 0, new(bool))
 			rv := func() map[string]interface{} {
 				return boolVars(r.Chance(1, 2), r.Chance(1, 2), r.Chance(1, 2))
 			}
@@ -1280,5 +1800,7 @@ func main() {
 		}
 		one(c, "random")
 	}
+	run.Res.Extra["typename_resolve_notifications"] = typenameNotifs
+	run.Res.Extra["response_field_positions_checked"] = treePositions
 	run.Finish()
 }
